@@ -974,6 +974,7 @@ def _execute(trace, probes, scratch):
                 k -= len(e[role])
             probes['rxn_member_made_unsupported'] += 1
     ref = text.encode('utf-8')
+    bext = _byte_extents(text, extents)      # the disk image is bytes; titles and metadata may hold non-ASCII text
     probes['records_written'] += len(records)
     probes['fmt:' + fmt] += 1
 
@@ -994,7 +995,7 @@ def _execute(trace, probes, scratch):
         c = wp.get('crash') or {}
         pre = len(sf.data)
         cut = sf.crash(c.get('cut_frac', 0.5), c.get('fill', 'cut'), c.get('sector', False))
-        img = Image(ref[:cut], extents)
+        img = Image(ref[:cut], bext)
         img.torn_at = cut
         if len(sf.data) > cut:
             img.data += sf.data[cut:]
@@ -1004,13 +1005,13 @@ def _execute(trace, probes, scratch):
             img._mark(cut - 1, cut)
         if bytes(sf.data[:cut]) != ref[:cut]:
             raise Violation('writer-output-differs-by-sink', 'bytes on the simulated disk are not a prefix of the reference image')
-        probes['tear_class:' + _tear_class(ref, extents, cut, fmt)] += 1
+        probes['tear_class:' + _tear_class(ref, bext, cut, fmt)] += 1
     elif res['failed']:
         probes['fault:write_error_escaped'] += 1
         n = len(sf.data)
         if bytes(sf.data) != ref[:n]:
             raise Violation('writer-output-differs-by-sink', 'bytes after a write error are not a prefix of the reference image')
-        img = Image(ref[:n], extents)
+        img = Image(ref[:n], bext)
         img.torn_at = n
         if n > 0:
             img._mark(n - 1, n)
@@ -1018,7 +1019,7 @@ def _execute(trace, probes, scratch):
         if bytes(sf.data) != ref:
             raise Violation('writer-output-differs-by-sink', f'fault-free simulated write differs from reference image '
                                                    f'({len(sf.data)} vs {len(ref)} bytes)')
-        img = Image(ref, extents)
+        img = Image(ref, bext)
 
     # ---- optional append after reopen
     appended = []
@@ -1054,7 +1055,8 @@ def _execute(trace, probes, scratch):
                     if _is_record(r):
                         raise
                     continue
-                ext2.append((start + s0, start + buf.tell()))
+                v = buf.getvalue()
+                ext2.append((start + len(v[:s0].encode()), start + len(v.encode())))
                 appended.append(r)
             w.close()
             if bytes(sf2.data[start:]) != buf.getvalue().encode():
@@ -1279,6 +1281,16 @@ def _tuplify(v):
 def _is_subseq(a, b):
     it = iter(b)
     return all(any(x == y for y in it) for x in a)
+
+
+def _byte_extents(text, extents):
+    if text.isascii():
+        return list(extents)
+    out = []
+    for a, b in extents:
+        ba = len(text[:a].encode('utf-8'))
+        out.append((ba, ba + len(text[a:b].encode('utf-8'))))
+    return out
 
 
 def _tear_class(ref, extents, cut, fmt):
